@@ -37,10 +37,10 @@ fn fused_ok(p: &Prog) -> Result<bool, String> {
         ])),
     )
     .cast_into();
-    let query: Query<QR> = Query::new(qvars.clone(), goal);
+    let query: Query<QR, DU, DE> = Query::new(qvars.clone(), goal);
     proto_vulcan::verif::set_budget(3_000_000);
     let r = crate::catch(|| {
-        let mut iter = query.run();
+        let mut iter = query.run_with_user(DU::default(), ());
         while iter.next().is_some() {}
         let mut ok = true;
         for _ in 0..3 {
